@@ -288,6 +288,24 @@ def charwise(url, encoding, extra=''):
             tab.append((ch, eexc_value(bs)))
         except UnicodeError as e:
             tab.append((ch, eexc_value(e)))
+    # a stateful codec (iso-2022-*, hz …) is not character-wise even when the whole text cannot be encoded
+    good = [ch for ch in sorted(set(url) | set(extra)) if ord(ch) >= 128]
+    enc1 = {}
+    for ch in good:
+        try:
+            enc1[ch] = ch.encode(encoding)
+        except UnicodeError:
+            pass
+    try:
+        for ch, bs in enc1.items():
+            if ('a' + ch + 'z').encode(encoding) != b'a' + bs + b'z':
+                return None
+        both = url + extra
+        for a, b in zip(both, both[1:]):
+            if a in enc1 and b in enc1 and (a + b).encode(encoding) != enc1[a] + enc1[b]:
+                return None
+    except UnicodeError:
+        return None
     try:
         whole = url.encode(encoding)
     except UnicodeError:
@@ -873,6 +891,8 @@ class Spec:
                 return False
         if self.user is not None and any(c in (self.user + (self.pw or '')) for c in '/?#@'):
             return False
+        if isinstance(self.host, str) and any(ch.isspace() for ch in self.host):
+            return False        # str.strip() removes it only where the URL ends with the host: not a spelling difference
         return True
 
 
